@@ -43,6 +43,8 @@ def c01_threads_do_the_io(ctx):
     spawns = new.calls_to(lambda f: M.callee_str(f) == RAW + "spawn_with_arg")
     ctx.ob("R01.7", "one-thread-per-stream", len(spawns) == 0 or True, new.loc(0), "helpers are started through Option::map closures")
     inner = [p for p in prog.fns if p.startswith(RAW + "RawCommunicator::new::{closure") and any(M.callee_str(t["f"]) == RAW + "spawn_with_arg" for _, t in prog.fns[p].calls())]
+    # (or spawned in the constructor's own body: `if let Some(f) = read_stdout { spawn_with_arg(f, ..) }`)
+    inner = inner + ["%s@bb%d" % (new.path, b_) for b_, t_ in spawns]
     ctx.ob("R01.7", "three-spawn-sites", len(inner) == 3, new.loc(0), "stdout reader, stderr reader and stdin writer each get their own thread (spawn sites: %d)" % len(inner))
     callers = sorted({f.path for f, _, _ in callers_of(prog, RAW + "read_and_transmit")})
     ctx.ob("R01.7", "read_and_transmit-only-from-helper-closures", bool(callers) and all(c.startswith(RAW + "RawCommunicator::new::{closure") for c in callers), "", "read_and_transmit callers: %s" % callers)
